@@ -12,8 +12,14 @@ def run(ctx):
                   Payloads=ctx.pick("{1, 2}", "{0, 1, 2}"))
     r = ctx.model_check("consensus", "MC_Wal", "MC_Wal.cfg", constants=consts, coverage=True,
                         timeout=ctx.pick(300, 1800))
-    ctx.check_coverage(r)
+    ctx.check_coverage(r, allow_zero=("Housekeep",))   # FileLimit = 0 in this configuration: housekeeping off
     ctx.exhaustive = True
+    # housekeeping (rotation + trimming by the ticker goroutine): both sync policies
+    for eager in ctx.pick(("FALSE",), ("FALSE", "TRUE")):
+        rh = ctx.model_check("consensus", "MC_Wal", "MC_WalHk.cfg", constants=dict(EagerSync=eager, MaxOps=ctx.pick(7, 9)),
+                             coverage=(eager == "FALSE"), timeout=ctx.pick(600, 2400))
+        if eager == "FALSE":
+            ctx.check_coverage(rh)
     # the two deviations of wal.go written into the model (Impl="code") must be caught by the same properties:
     # guards against a vacuous specification
     rc = ctx.tlc("consensus", "MC_Wal", "MC_Wal.cfg", constants=dict(consts, Impl='"code"', MaxOps=8, MaxRecs=3),
@@ -35,8 +41,26 @@ def run(ctx):
                                               Payloads="{0, 1, 2}"),
                                simulate="num=%d" % ctx.pick(4000, 40000), depth=wl + 1, seed=ctx.seed, timeout=900)
         walks = [b for b in walks if "crash" in [s["op"] for s in b]]
-    allb = beh + walks
-    ctx.log("%d BFS behaviours with crash+recover, %d walks with a crash" % (len(beh), len(walks)))
+    hk = []
+    if not ctx.replay:
+        # housekeeping behaviours: BFS histories that contain a pass which rotates or trims, plus walks
+        for eager in ("FALSE", "TRUE"):
+            d = ctx.pick(5, 7)
+            bs = ctx.behaviours("consensus", "Gen_Wal", "Gen_WalHk.cfg", constants=dict(EagerSync=eager, MaxOps=d, Depth=d),
+                                timeout=ctx.pick(600, 2400))
+            hk += [b for b in bs if any(s["op"] == "housekeep" and (s["rotate"] or s["synced"] or s["head"] > 1) for s in b)]
+            wl = ctx.pick(12, 16)
+            ws = ctx.behaviours("consensus", "Gen_Wal", "Gen_WalHk.cfg",
+                                constants=dict(EagerSync=eager, MaxOps=wl, Depth=wl, MaxRecs=8, MaxSegs=5, MaxCrash=2),
+                                simulate="num=%d" % ctx.pick(3000, 15000), depth=wl + 1, seed=ctx.seed + 7, timeout=900)
+            hk += [b for b in ws if any(s["op"] == "housekeep" and s["head"] > 1 for s in b)]
+        if not any(s["op"] == "housekeep" and s["head"] > 1 and any(t["op"] == "recover" for t in b[i:])
+                   for b in hk for i, s in enumerate(b)):
+            raise Exception("vacuity: no generated behaviour trims the head and recovers afterwards")
+        ctx.cov["housekeeping_behaviours"] = len(hk)
+        ctx.cov["housekeeping_trims"] = sum(1 for b in hk if any(s["op"] == "housekeep" and s["head"] > 1 for s in b))
+    allb = beh + walks + hk
+    ctx.log("%d BFS behaviours with crash+recover, %d walks with a crash, %d housekeeping behaviours" % (len(beh), len(walks), len(hk)))
     inp = ctx.path("in", "behaviours.ndjson")
     with open(inp, "w") as fh:
         for b in allb:
@@ -46,11 +70,13 @@ def run(ctx):
     for b in (beh[:1] + walks[:2]):
         ctx.sample(b)
     return ctx.finish(
-        rule="a case = one TLC-generated history of WriteBytes/Sync/Shift/Close/Crash(cut)/Recover on real WAL files "
+        rule="a case = one TLC-generated history of WriteBytes/Sync/Shift/Housekeep/Close/Crash(cut)/Recover on real WAL files "
              "(every history of the BFS depth that contains a crash and ends in a recovery + seeded random walks; the thorough "
              "tier adds every byte offset inside a torn header and boundary offsets inside a torn payload); distinct by "
              "op sequence incl. payload classes and cut classes (+ byte variant); non-trivial if it contains a crash",
         assumptions=["crash model of the property: the tail segment keeps its synced bytes plus an arbitrary prefix of the "
                      "unsynced bytes; earlier segments are complete (Shift syncs before rotating)",
                      "recovery = the caller protocol of consensus.applyRoundWAL (read to error, CloseAndRepair unless clean EOF, reopen for append)",
-                     "housekeeping goroutine disabled by long intervals (rotation is driven explicitly through Shift)"])
+                     "the housekeeping goroutine's ticker never fires; its passes are scheduled by the specification "
+                     "(action Housekeep -> consensus.VerifWALHousekeep, hook) with the spec's limits in bytes; housekeeping "
+                     "behaviours use records of exactly 4 bytes per cell, smaller than the writer's buffer"])
